@@ -5,6 +5,7 @@ Oracle: brute-force periodic search (mc.ref.lattice.periodic_neighbours) over a 
 from the perpendicular widths plus a self-validated empty outer shell; `required <= observed <= allowed`
 with a 1e-6 A ambiguity band.
 """
+from mc.paths import TEST_FILES
 import itertools
 
 import numpy as np
@@ -262,7 +263,7 @@ def run(ctx):
                           "queries": ["point", "atomic"], "label": "atoms5:%d:%s:oblique%s" % (n, ch, cell[3:])})
     # (2) bundled structures: all queries
     for f in ("iceII.cif", "acetic_acid.cif", "r3c_example.cif"):
-        specs.append({"kind": "file", "path": "/repo/src/chmpy/tests/test_files/" + f, "radii": [1.2, 3.8, 6.0, 12.0],
+        specs.append({"kind": "file", "path": TEST_FILES + f, "radii": [1.2, 3.8, 6.0, 12.0],
                       "queries": ["point", "atomic", "molecule"], "label": f})
     # (3) generated molecular crystals: molecule queries
     msett = [(1, ""), (2, ""), (14, "b1"), (15, "b1"), (19, ""), (33, ""), (61, ""), (148, "H"), (148, "R"), (176, "")]
